@@ -1,4 +1,4 @@
-CONSTANTS K = 39 NP = 3 Sizes = {0, 1, 2, 34, 37, 40, 77, 300} Fills = {0, 1, 2} MaxBlocks = 3 Faults = {"none", "drop", "badbp"} TailCheck = TRUE
+CONSTANTS K = 39 NP = 3 Sizes = {0, 1, 2, 34, 37, 40, 77, 300} Fills = {0, 1, 2} MaxBlocks = 3 Faults = {"none", "drop", "badbp"} TailCheck = TRUE Foreign = {"none", "page", "stream", "mag"} TailAtForeign = TRUE
 SPECIFICATION GSpec
 CONSTRAINT Dump
 CHECK_DEADLOCK FALSE
